@@ -386,10 +386,19 @@ def run_cli(d, combo, pair, sname, dname, defs):
     for p in pair['params']:
         name, val = p[2:].split('=', 1)
         args += ['-p', name, val]
+    # the program is started in a SUBDIRECTORY of the directory that holds the files, and names them relatively: relative references
+    # (xml-stylesheet href, xsl:include/import, document()) must be resolved against the referring entity, not the working directory
+    cwd = os.path.join(d, 'cwd')
+    os.makedirs(cwd, exist_ok=True)
+    up = '../'
+    if src == 'stream' or sty == 'stream':
+        # an entity read from standard input has no base URI: its relative references (the href of an xml-stylesheet PI, xsl:include,
+        # document()) can only be taken relative to the working directory, so these combinations are started where the files are
+        cwd, up = d, ''
     outname = 'cliout.' + dname
     outpath = os.path.join(d, outname)
     if res == 'file':
-        args += ['-o', outname]
+        args += ['-o', up + outname]
         try:
             os.unlink(outpath)
         except OSError:
@@ -399,16 +408,16 @@ def run_cli(d, combo, pair, sname, dname, defs):
         args.append('-')
         stdin = defs[dname].encode('utf-8')
     else:
-        args.append(dname)
+        args.append(up + dname)
     if sty == 'stream':
         args.append('-')
         stdin = defs[sname].encode('utf-8')
     elif sty in ('file', 'compiled-file'):
-        args.append(sname)
+        args.append(up + sname)
     env = dict(os.environ)
     env.update(vlib.ASAN_ENV)
     try:
-        p = subprocess.run(args, input=stdin, stdout=subprocess.PIPE, stderr=subprocess.PIPE, cwd=d, env=env, timeout=600)
+        p = subprocess.run(args, input=stdin, stdout=subprocess.PIPE, stderr=subprocess.PIPE, cwd=cwd, env=env, timeout=600)
     except subprocess.TimeoutExpired:
         raise vlib.WorkerDied('timeout', 'Xalan ' + ' '.join(args[1:]))
     errtext = p.stderr.decode('utf-8', 'replace')
